@@ -1,5 +1,6 @@
 from __future__ import annotations
 
+from copy import deepcopy
 from datetime import datetime
 from typing import Any, Dict, List, Optional
 
@@ -163,6 +164,14 @@ class Candle:
         if self.clean_values:
             for name, value in self.clean_values.items():
                 self.__setattr__(name, value)
+
+    def raw_copy(self) -> Candle:
+        """Deep copy carrying the raw (pre-conversion) values, without tag or readings"""
+        candle = deepcopy(self)
+        candle.recover_clean_values()
+        candle.clean_values = {}
+        candle.reset_candle()
+        return candle
 
     def reset_candle(self):
         self.indicators = {}
